@@ -277,7 +277,10 @@ fn install() {
 }
 
 fn verify_snapshot(dir: &Path, verify: &[Value], recover_pragma: bool) -> (String, Vec<Value>) {
+    // recover_pragma: take the second recovery path - open in degraded mode, then PRAGMA recover_wal
+    turdb::verif::set_force_degraded(recover_pragma);
     let opened = guarded(|| Database::open(dir));
+    turdb::verif::set_force_degraded(false);
     match opened {
         Err(p) => (format!("panic:{}", p), vec![]),
         Ok(Err(e)) => (format!("err:{:#}", e), vec![]),
@@ -383,10 +386,23 @@ pub fn run(args: &Args) {
         let _ = guarded(move || drop(s));
         let rp = case["recover_pragma"].as_bool().unwrap_or(false);
         let mut snaps_out = vec![];
-        for (n, m, op, ev) in &ctx.taken {
+        let both_every = case["both_paths_every"].as_u64().unwrap_or(0);
+        for (k, (n, m, op, ev)) in ctx.taken.iter().enumerate() {
             let dir = snaps.join(format!("{}-{}", m, n));
+            let mut entry = json!({"n": n, "model": m, "op": op, "event": ev});
+            if both_every > 0 && (k as u64) % both_every == 0 {
+                // the same snapshot through the streaming path (degraded mode + PRAGMA recover_wal), on a copy
+                let dir2 = snaps.join(format!("{}-{}-streaming", m, n));
+                copy_tree(&dir, &dir2);
+                let (open2, res2) = verify_snapshot(&dir2, &verify, true);
+                entry["streaming_open"] = json!(open2);
+                entry["streaming_res"] = json!(res2);
+                let _ = std::fs::remove_dir_all(&dir2);
+            }
             let (open, res) = verify_snapshot(&dir, &verify, rp);
-            snaps_out.push(json!({"n": n, "model": m, "op": op, "event": ev, "open": open, "res": res}));
+            entry["open"] = json!(open);
+            entry["res"] = json!(res);
+            snaps_out.push(entry);
             let _ = std::fs::remove_dir_all(&dir);
         }
         vec![json!({"id": case["id"], "setup_res": setup_res, "events": ctx.events, "work_res": work_res, "final": fin, "snaps": snaps_out})]
